@@ -93,6 +93,12 @@ CHECKS = {
             'built-in backend in-process and through the CLI',
             'Held on the executions produced: nothing written outside the output folder, refused requests wrote '
             'nothing, emitted text verbatim, manifests equal the created file sets.', '4 C18'),
+    'C16': ('runtime monitoring: the four JavaScript/TypeScript backends run on generated specs x option sets; '
+            'js_client output parsed by node --check and executed by a node harness with a recording request(); '
+            'JSDoc / TypeScript output scanned by an own lexer and declaration scanner and compared with the model',
+            'Held on the executions produced: backends completed, JavaScript parsed and requested the right URL / '
+            'argument / attributes, every struct / union / alias / route declared once with the modelled members, '
+            'every referenced type name resolvable.', '4 C16'),
 }
 
 PENDING = {}
